@@ -272,9 +272,9 @@ def jobs(tier):
             if op == "bulkget":
                 for n in range(3):
                     for m in range(4):
-                        if quick and kind != "v2c" and (n, m) not in ((1, 2), (0, 3)):
+                        if quick and kind != "v2c" and (n, m) != (1, 2):
                             continue
-                        if quick and kind == "v2c" and (n, m) in ((2, 0), (0, 0), (1, 3), (2, 2)):
+                        if quick and kind == "v2c" and (n, m) in ((2, 0), (0, 0), (0, 3), (2, 3), (2, 2)):
                             continue
                         out.append(Job(f"{kind}-bulkget-n{n}-m{m}", make_harness(kind, op, maxk), args(op, n, m),
                                        timeout=500 if quick else 1500, mode="E/concolic-window", functions=funcs, sample_every=23))
